@@ -2721,6 +2721,12 @@ func (f *fragment) unprotectedRows(start uint64, filters ...rowFilter) []uint64 
 	for i.Next() {
 		key, c := i.Value()
 
+		// Clears can leave empty containers behind; they hold no bits, so
+		// they must not make their row show up.
+		if c.N() == 0 {
+			continue
+		}
+
 		// virtual row for the current container
 		vRow := key >> shardVsContainerExponent
 
